@@ -35,7 +35,9 @@ MkInput(ptr, vis, marks, emarks, ditem, dlines) ==
               EXCEPT !.doc = dd("enum"), !.copyable = emarks.copy, !.cloneable = emarks.clone, !.defaultable = emarks.dflt,
                      !.singleton = IF emarks.copy THEN 131072 ELSE None]
       h == Func("h", vis.h, dd("fn"), <<ArgC>>, TNm("u32"), 4096, None, "")
-      m == [Module(<<"m">>, <<>>, <<T, V, D, DV, E>>)
+      (* alignment 1 without being packed: `repr(C, align(1))`, not `repr(C, packed)` *)
+      Bt == TypeDef("Bt", "pub", <<Field("b", "pub", <<>>, TNm("u8"), None, FALSE)>>)
+      m == [Module(<<"m">>, <<>>, <<T, V, D, DV, E, Bt>>)
               EXCEPT !.doc = dd("module"), !.impls = <<Impl("T", <<h>>)>>,
                      (* a prologue that holds an item: the module documentation still has to come first *)
                      !.backs = <<Backend("rust", "use core::ffi::c_void as Opaque;", "pub type Tail = u8;")>>,
